@@ -401,16 +401,39 @@ Section Slots.
     intros Hx. destruct (compile_inv _ _ _ Hc) as (dirs & nis & rts & rids & Hn & _ & Hceq). rewrite Hceq in Hx. cbn in Hx.
     destruct (mapM_In _ _ _ _ Hn Hx) as (ni & _ & Hq). unfold compile_ni in Hq.
     destruct (find_ep d (n_desc ni)); [|discriminate]. inv_bind Hq. inversion Hq; subst x; clear Hq. cbn.
-    unfold link_edges_from in E3. destruct (filter is_link (edges_from g (n_name ni))) as [|e1 l] eqn:F; [discriminate|].
+    unfold link_edges_from in E3. destruct (filter is_link (edges_from g (n_name ni))) as [|e1 [|? ?]] eqn:F; try discriminate.
     inversion E3; subst a3. assert (He1 : In e1 (filter is_link (edges_from g (n_name ni)))) by (rewrite F; left; reflexivity).
     apply filter_In in He1. destruct He1 as (He1 & Hl1).
-    unfold link_edges_to in E4. destruct (filter is_link (edges_to g (n_name ni))) as [|e2 l2] eqn:F2; [discriminate|].
+    unfold link_edges_to in E4. destruct (filter is_link (edges_to g (n_name ni))) as [|e2 [|? ?]] eqn:F2; try discriminate.
     inversion E4; subst a4. assert (He2 : In e2 (filter is_link (edges_to g (n_name ni)))) by (rewrite F2; left; reflexivity).
     apply filter_In in He2. destruct He2 as (He2 & Hl2). cbn.
     split; [eapply edges_from_src; eauto|]. split.
     - unfold edges_from in He1. apply filter_In in He1. destruct He1 as (He1 & _). apply edges_view_sub in He1. exists e1. cbn. auto.
     - split; [eapply edges_to_dst; eauto|].
       unfold edges_to in He2. apply filter_In in He2. destruct He2 as (He2 & _). apply edges_view_sub in He2. exists e2. cbn. auto.
+  Qed.
+
+  (* an accepted interface has exactly one link in each direction: every link edge that leaves (enters) it is the
+     recorded one -- the former side condition `single_attach`, now a consequence of acceptance (DESIGN 8.16) *)
+  Lemma compile_ni_single x e : In x (c_nis c) -> In e (g_edges g) -> is_link e = true ->
+    (e_src e = cn_name x -> (e_src e, e_dst e) = cn_mgr_link x) /\ (e_dst e = cn_name x -> (e_src e, e_dst e) = cn_sbr_link x).
+  Proof.
+    intros Hx Hein Hl. destruct (compile_inv _ _ _ Hc) as (dirs & nis & rts & rids & Hn & _ & Hceq). rewrite Hceq in Hx. cbn in Hx.
+    destruct (mapM_In _ _ _ _ Hn Hx) as (ni & _ & Hq). unfold compile_ni in Hq.
+    destruct (find_ep d (n_desc ni)); [|discriminate]. inv_bind Hq. inversion Hq; subst x; clear Hq. cbn.
+    pose proof (proj2 (build_ginv d g Hb)) as Hends.
+    assert (Hev : In e (edges_view g)) by (apply (edges_view_In g e Hends); exact Hein).
+    split; intros Hq.
+    - unfold link_edges_from in E3. destruct (filter is_link (edges_from g (n_name ni))) as [|e1 [|? ?]] eqn:F; try discriminate.
+      inversion E3; subst a3.
+      assert (Hin : In e (filter is_link (edges_from g (n_name ni)))).
+      { apply filter_In. split; [|exact Hl]. unfold edges_from. apply filter_In. split; [exact Hev|apply str_eqb_eq; exact Hq]. }
+      rewrite F in Hin. destruct Hin as [<-|[]]. reflexivity.
+    - unfold link_edges_to in E4. destruct (filter is_link (edges_to g (n_name ni))) as [|e2 [|? ?]] eqn:F2; try discriminate.
+      inversion E4; subst a4.
+      assert (Hin : In e (filter is_link (edges_to g (n_name ni)))).
+      { apply filter_In. split; [|exact Hl]. unfold edges_to. apply filter_In. split; [exact Hev|apply str_eqb_eq; exact Hq]. }
+      rewrite F2 in Hin. destruct Hin as [<-|[]]. reflexivity.
   Qed.
 
   Lemma attach_link x : In x (c_nis c) -> fst (attach x) = cn_name x /\ is_link_of g (attach x) /\
